@@ -38,6 +38,18 @@ Theorem C11_flatten_equivalent : forall (S : Type) (act : nat -> S -> S) (cond :
   forall res, (exists fuel, run S act cond g fuel (start, e, s) = Some res) <->
               (exists fuel, run S act cond (flatten x keys start g) fuel (flat_entry g, e, s) = Some res).
 Proof. exact flatten_equiv. Qed.
+(* hardening of the dispatcher keys: under "xor" the value a fake block stores equals the value its
+   if-block compares with, and these effective keys are again distinct and non-zero when the keys
+   generateKeys draws are distinct and differ from the global key; under "delegate_table" the stored
+   value is the compared key itself.  So C11_flatten_equivalent applies to the hardened dispatcher. *)
+Theorem C11_xor_hardening_consistent : forall g k, xor_store g k = xor_compare g k.
+Proof. exact xor_store_is_compare. Qed.
+Theorem C11_xor_hardening_keys_ok : forall g keys,
+  NoDup keys -> Forall (fun k => k <> g) keys ->
+  NoDup (map (xor_store g) keys) /\ Forall (fun e => e <> 0) (map (xor_store g) keys).
+Proof. exact xor_hardening_keys_ok. Qed.
+Theorem C11_delegate_hardening_consistent : forall dk k, delegate_store dk k = k.
+Proof. exact delegate_store_is_key. Qed.
 (* what the correspondence check evaluates on every sequence of graphs dumped from the real passes:
    when the two deciders answer true, the dumped result [real] is equivalent to the dumped input [g] *)
 Theorem C11_passes_checked_instance : forall (S : Type) (act : nat -> S -> S) (cond : nat -> S -> bool) ps g start real,
@@ -96,3 +108,6 @@ Print Assumptions C11_passes_checked_instance.
 Print Assumptions C11_passes_example.
 Print Assumptions C11_flatten_zero_key_refuted.
 Print Assumptions C11_trash_true_guard_refuted.
+Print Assumptions C11_xor_hardening_consistent.
+Print Assumptions C11_xor_hardening_keys_ok.
+Print Assumptions C11_delegate_hardening_consistent.
